@@ -72,17 +72,19 @@ def _patch(wu):
     state = {"built": False}
     fps = {}  # id(kernel object) -> set of argument fingerprints it was BUILT for
 
-    def counting_builder(*args):
+    def counting_builder(*args, **kwargs):
       state["built"] = True
-      return func(*args)
+      return func(*args, **kwargs)
 
     counting_builder.__name__ = func.__name__
     wrapped = orig(counting_builder)
 
-    def wrapper(*args):
+    def wrapper(*args, **kwargs):
+      # keyword arguments are passed through untouched (whether the repository's cache accepts and keys them is its
+      # business); the fingerprint covers their values
       state["built"] = False
-      k = wrapped(*args)
-      fp = deep_fp(args)
+      k = wrapped(*args, **kwargs)
+      fp = deep_fp(args) if not kwargs else deep_fp((args, tuple(sorted((n, deep_fp(v)) for n, v in kwargs.items()))))
       if state["built"]:
         AUDIT["misses"] += 1
         fps.setdefault(id(k), (set(), k))[0].add(fp)
@@ -93,7 +95,7 @@ def _patch(wu):
           # the key ignored something that differs: decide by building the kernel for THESE arguments and
           # comparing it with the one that was served (Warp gives kernels of identical code the same key)
           AUDIT["rebuilt_on_hit"] = AUDIT.get("rebuilt_on_hit", 0) + 1
-          k2 = func(*args)
+          k2 = func(*args, **kwargs)
           # module="unique" kernels: the module name carries Warp's content hash (kernel.key does not)
           ident = lambda kk: (getattr(getattr(kk, "module", None), "name", None), getattr(kk, "key", None))
           same = (k2 is k) or (ident(k2)[0] is not None and ident(k2) == ident(k))
@@ -175,10 +177,18 @@ def main():
 
   out = {"program": []}
   for cfg in spec["program"]:
-    r = run_cfg(cfg, 2, False)
-    out["program"].append("rejected" if "rejected" in r else "ran")
+    try:
+      r = run_cfg(cfg, 2, False)
+      out["program"].append("rejected" if "rejected" in r else "ran")
+    except Exception as e:  # noqa: an exception in a program entry is C17's subject; the target still runs
+      out["program"].append(f"error:{type(e).__name__}")
   out["globals_before_target"] = {"_PRIMITIVE_COLLISION_TYPES": [tuple(int(x) for x in t) for t in getattr(cp, "_PRIMITIVE_COLLISION_TYPES", [])]}
-  out["target"] = run_cfg(spec["target"], spec["steps"], True)
+  try:
+    out["target"] = run_cfg(spec["target"], spec["steps"], True)
+  except Exception as e:  # noqa
+    import traceback
+
+    out["target"] = {"error": f"{type(e).__name__}: {e}"[:300], "where": traceback.format_exc()[-600:]}
   out["audit"] = AUDIT
   with open(sys.argv[2], "w") as f:
     json.dump(out, f)
